@@ -2096,7 +2096,7 @@ def run(tier):
     def _memo_rule(chk, prog):
         chk.rule('C16.R10', 'memoised functions of the sort inference: the cached value depends only on the cache key')
         memo.report(chk, prog, 'C16.R10', 'memoised functions of the sort inference',
-                    lambda m, q: m.name == 'smtlib',
+                    lambda m, q: m.name == 'smtlib' or m.name.startswith('mutators'),
                     'the lookup tables are rebuilt for every input; a value cached for an earlier input is served for the current one, so a proposal is made for the wrong sort')
 
     chk.guard(_memo_rule, chk, prog)
